@@ -62,6 +62,8 @@ type Sched struct {
 	Policy     int
 	slowTask   string
 	DeadReport string
+	rootDone    bool
+	LeakedTasks int
 	OnStep     func() // invariant hook, runs on the scheduler goroutine between two steps
 }
 
@@ -373,7 +375,14 @@ func (s *Sched) Run(root func()) {
 	s.mu.Lock()
 	s.live++
 	s.mu.Unlock()
-	go s.runTask("0", root)
+	go s.runTask("0", func() {
+		defer func() {
+			s.mu.Lock()
+			s.rootDone = true
+			s.mu.Unlock()
+		}()
+		root()
+	})
 	for {
 		synctest.Wait()
 		s.mu.Lock()
@@ -382,12 +391,25 @@ func (s *Sched) Run(root func()) {
 				s.mu.Unlock()
 				return
 			}
+			idle := s.MaxIdle
+			if s.rootDone {
+				// the workload has returned: tasks that are still blocked are goroutines the code
+				// under test leaked, not a hang of the operation; give their timers a moment
+				idle = 2 * time.Minute
+			}
 			s.mu.Unlock()
 			select {
 			case <-s.wake:
-			case <-time.After(s.MaxIdle):
+			case <-time.After(idle):
 				synctest.Wait()
 				s.mu.Lock()
+				if len(s.parked) == 0 && s.live > 0 && s.rootDone {
+					s.LeakedTasks = s.live
+					s.Aborted = true
+					s.DeadReport = s.report()
+					s.mu.Unlock()
+					return
+				}
 				if len(s.parked) == 0 && s.live > 0 {
 					s.Deadlock = true
 					s.Aborted = true
